@@ -240,13 +240,21 @@ pub fn literal_record(args: &[String]) {
     let fixed = ["0.1", "0.2", "0.3", "1.10", "1.0", "1.00", "1.", "0", "00", "007", "007.50", "1.2.3", "1e5", "1e+5", "1E-2", "1..2", "12e", "3.e1", "1.5.",
                  "79228162514264337593543950335", "7922816251426433759354395033.5", "0.0000000000000000000000000001", "9999999999999999999999999999",
                  "1234567890.123456789012345678", "0.10", "100", "1e", "2E", "1-2", "5.50", "0.0000000000000000000000000001.5", "0.1234567890123456789012345678.5",
-                 "0.1234567890123456789012345678..", "1234567890123456789012345678.5.6", "0.12345678901234567890123456789.25"];
+                 "0.1234567890123456789012345678..", "1234567890123456789012345678.5.6", "0.12345678901234567890123456789.25",
+                 // full scale behind `0.`, leading zeros, 28 significant digits in every position of the point
+                 "0.1234567890123456789012345678", "0.0000000000000000000000000010", "00.0000000000000000000000000001", "0000000000000000000000000000001", "000000000000000000000000000000.5",
+                 "1.234567890123456789012345678", "12345678901234.56789012345678", "0.9999999999999999999999999999", "0.0000000000000000000000000000", "0001234567890123456789012345678",
+                 "0.00000000000000000000000000001", "0.12345678901234567890123456789"];
     for k in 0..n {
         let text: String = if (k as usize) < fixed.len() {
             fixed[k as usize].to_string()
         } else {
             let digits = rng.gen_range(1..29);
             let mut s: String = (0..digits).map(|_| (b'0' + rng.gen_range(0..10)) as char).collect();
+            if rng.gen_bool(0.15) {
+                // leading zeros (in front of and behind the point) do not count as significant digits
+                s = format!("{}{}", "0".repeat(rng.gen_range(1..6)), s);
+            }
             if rng.gen_bool(0.7) {
                 let p = rng.gen_range(1..=digits);
                 s.insert(p, '.');
@@ -407,7 +415,8 @@ fn value_ast(v: &Value, ctx: &mut Context, hidden: &mut u32) -> ExprAST<'static>
     }
     match v {
         Value::None => ExprAST::None,
-        Value::Number(d) => ExprAST::Unary("-", Box::new(literal_ast(&Value::Number(-*d)).unwrap_or_else(|| tool_error("number literal")))),
+        // (when the engine refuses even a plain literal - state leaked by earlier parses, say - the value is bound to a hidden name instead)
+        Value::Number(d) if literal_ast(&Value::Number(-*d)).is_some() => ExprAST::Unary("-", Box::new(literal_ast(&Value::Number(-*d)).unwrap())),
         Value::List(vs) => ExprAST::List(vs.iter().map(|x| value_ast(x, ctx, hidden)).collect()),
         Value::Map(kvs) => ExprAST::Map(kvs.iter().map(|(k, x)| (value_ast(k, ctx, hidden), value_ast(x, ctx, hidden))).collect()),
         _ => {
@@ -878,9 +887,29 @@ pub fn determinism_replay(args: &[String]) {
             let _ = run_case(r, false);
         }
     }
+    // fixed probe programs: parsed at the start and again after every case (whose parses include failing ones); parsing depends on the
+    // text and the registrations only, so the results may never change
+    let deep = format!("{}1{}", "(".repeat(120), ")".repeat(120));
+    let probes: Vec<String> = vec!["1".into(), "a = 1 + 2 * 3; a".into(), "[1, {2: f(3, -x)}] in y ? !z : w++".into(), deep, "f(1,".into(), "2 +".into()];
+    let parse_probe = |t: &String| {
+        let t = t.clone();
+        guarded(move || parse_expression(leak(&t)).map(|a| crate::astjson::ast_to_json(&a)).map_err(|e| format!("{:?}", e).split('(').next().unwrap_or("").to_string())).unwrap_or(Err("panic".into()))
+    };
+    let probe_base: Vec<Result<J, String>> = probes.iter().map(parse_probe).collect();
+    let mut probe_failed = false;
     for idx in 0..recs.len() {
         n += 1;
         let mut why: Vec<String> = Vec::new();
+        if !probe_failed {
+            for (k, t) in probes.iter().enumerate() {
+                if parse_probe(t) != probe_base[k] {
+                    probe_failed = true;
+                    why.push(format!("parsing {:?} now gives {:?}; at the start of the process it gave {:?} (other programs, failing ones included, were parsed in between)",
+                                     if t.len() > 60 { format!("{}...", &t[..60]) } else { t.clone() }, parse_probe(t).map(|_| "a tree"), probe_base[k].clone().map(|_| "a tree")));
+                    break;
+                }
+            }
+        }
         // warm-up so that the registrations this case needs are in place before the snapshot
         let first = run_case(&recs[idx], false);
         let snap0 = expression_engine::verif_hooks::registry_snapshot();
